@@ -273,6 +273,229 @@ theorem just_bits (wd : Nat → Nat) (nm : Nat → String) (V : Nat → Nat) (f 
   · rw [e, lit_eq, inline_bit (wd b) j hj (by omega) hK]
     rfl
 
+/-! ### Xor2, Equal, EqualConstant -/
+
+theorem fix_xor2 {wd : Nat → Nat} {V : Nat → Nat} {ls : List CLeaf} (hfix : LeavesFix wd V ls)
+    (a b r mid x y m0 m1 m2 m3 : Nat) (hmem : ∀ c, c ∈ xorLeaves wd a b r mid x y m0 m1 m2 m3 → c ∈ ls)
+    (w1 : wd mid = wd r) (w2 : wd x = wd r) (w3 : wd y = wd r) (w4 : wd m0 = wd a) (w5 : wd m1 = wd a) (w6 : wd m2 = wd b)
+    (w7 : wd m3 = wd r) (ha : V a < 2 ^ wd a) (hb : V b < 2 ^ wd b) : V r = (V a ^^^ V b) % 2 ^ wd r := by
+  have hmid := fix_nand hfix a b mid m0 (fun c hc => hmem c (by simp only [xorLeaves, List.mem_append]; exact Or.inl hc))
+  have hxo := fix_nand hfix a mid x m1 (fun c hc => hmem c (by simp only [xorLeaves, List.mem_append]; exact Or.inr (Or.inl hc)))
+  have hyo := fix_nand hfix b mid y m2 (fun c hc => hmem c (by simp only [xorLeaves, List.mem_append]; exact Or.inr (Or.inr (Or.inl hc))))
+  have hr := fix_nand hfix x y r m3 (fun c hc => hmem c (by simp only [xorLeaves, List.mem_append]; exact Or.inr (Or.inr (Or.inr hc))))
+  rw [hr, hxo, hyo, hmid, w1, w2, w3, w4, w5, w6, w7]
+  exact C08.xor2_val (wd a) (wd b) (wd r) (V a) (V b) ha hb
+
+theorem mem_getElem? {α : Type} (l : List α) (x : α) (h : x ∈ l) : ∃ j : Nat, l[j]? = some x := by
+  obtain ⟨j, hj, e⟩ := List.mem_iff_getElem.mp h
+  exact ⟨j, by rw [List.getElem?_eq_getElem hj, e]⟩
+
+theorem not1_one (x : Nat) (hx : x < 2) : Leaf.not1 1 x = if x = 0 then 1 else 0 := by
+  rcases lt2 hx with e | e <;> subst e <;> decide
+
+theorem equal_val {wd : Nat → Nat} {V : Nat → Nat} {ls : List CLeaf} (hfix : LeavesFix wd V ls)
+    (a b r xr mid x y m0 m1 m2 m3 : Nat) (bits ts : List Nat) (nmid : Nat)
+    (hok : (GKind.equal a b r xr mid x y m0 m1 m2 m3 bits ts nmid).okb wd = true)
+    (hmem : ∀ c, c ∈ (GKind.equal a b r xr mid x y m0 m1 m2 m3 bits ts nmid).leaves wd → c ∈ ls)
+    (ha : V a < 2 ^ wd a) (hb : V b < 2 ^ wd b) : V r = if V a = V b then 1 else 0 := by
+  simp only [GKind.okb, Bool.and_eq_true, decide_eq_true_eq] at hok
+  obtain ⟨⟨⟨⟨hab, hr1⟩, hxa⟩, ⟨⟨⟨⟨⟨⟨w1, w2⟩, w3⟩, w4⟩, w5⟩, w6⟩, w7⟩⟩, hrest⟩ := hok
+  have hxr := fix_xor2 hfix a b xr mid x y m0 m1 m2 m3
+    (fun c hc => hmem c (by simp only [GKind.leaves, List.mem_append]; exact Or.inl hc)) w1 w2 w3 w4 w5 w6 w7 ha hb
+  have hxlt : V a ^^^ V b < 2 ^ wd xr := by
+    rw [hxa]; exact Nat.xor_lt_two_pow ha (hab ▸ hb)
+  rw [Nat.mod_eq_of_lt hxlt] at hxr
+  by_cases hbits : bits = []
+  · rw [if_pos hbits] at hrest
+    simp only [decide_eq_true_eq] at hrest
+    have hnot := fix_not1 hfix xr r (hmem _ (by simp [GKind.leaves, hbits]))
+    rw [hnot, hr1, hxr]
+    have ha2 : V a < 2 := by rw [hrest] at ha; simpa using ha
+    have hb2 : V b < 2 := by rw [← hab, hrest] at hb; simpa using hb
+    rcases lt2 ha2 with e | e <;> rcases lt2 hb2 with e' | e' <;> rw [e, e'] <;> decide
+  · rw [if_neg hbits] at hrest
+    simp only [Bool.and_eq_true, decide_eq_true_eq, List.all_eq_true, Bool.not_eq_true', List.contains_eq_mem,
+      decide_eq_false_iff_not] at hrest
+    obtain ⟨⟨⟨⟨⟨⟨⟨hlen, hnd⟩, _⟩, _⟩, hb1⟩, hshape⟩, hts⟩, hnm⟩ := hrest
+    have hsub : ∀ c, c ∈ bitsLeaf (bitsFnL (wd xr)) xr bits ++ norLeaves wd bits r ts nmid → c ∈ ls := fun c hc =>
+      hmem c (by simp only [GKind.leaves, if_neg hbits, List.mem_append]; exact Or.inr (List.mem_append.mp hc))
+    have hbitv : ∀ j bb, bits[j]? = some bb → V bb = if (V a ^^^ V b).testBit j then 1 else 0 := by
+      intro j bb hj
+      have := fix_bits wd V (bitsFnL (wd xr)) xr bits hnd (fun j hj => bitsFnL_val (wd xr) (V xr) j hj) hlen
+        (fun c hc => hfix c (hsub c (List.mem_append.mpr (Or.inl hc)))) j bb hj
+      rw [this, hb1 bb (List.mem_of_getElem? hj), hxr, bit_val]
+      split <;> rfl
+    have hblt : ∀ bb, bb ∈ bits → V bb < 2 := by
+      intro bb hbb
+      obtain ⟨j, hj⟩ := mem_getElem? bits bb hbb
+      rw [hbitv j bb hj]; split <;> decide
+    obtain ⟨b0, rest, e⟩ := List.exists_cons_of_ne_nil hbits
+    have hmid := gate_val hfix Kind.or2 (· ||| ·) (fun a b o h => by rw [fix_or2 hfix a b o h]; rfl) or_hmod b0 rest nmid ts
+      (e ▸ hshape) hts (fun c hc => hsub c (by
+        simp only [List.mem_append, norLeaves]; exact Or.inr (Or.inl (e ▸ hc))))
+    have hnot := fix_not1 hfix nmid r (hsub _ (by simp [norLeaves]))
+    have hF := orfold01 (rest.map V) (V b0) (hblt b0 (by simp [e])) (by
+      intro v hv
+      rcases List.mem_map.mp hv with ⟨u, hu, e'⟩
+      subst e'
+      exact hblt u (by simp [e, hu]))
+    rw [List.foldl_map] at hF
+    have hFlt : rest.foldl (fun p x => p ||| V x) (V b0) < 2 ^ wd nmid :=
+      Nat.lt_of_lt_of_le hF.1 (by
+        calc 2 = 2 ^ 1 := rfl
+          _ ≤ 2 ^ wd nmid := Nat.pow_le_pow_right (by decide) hnm)
+    rw [Nat.mod_eq_of_lt hFlt] at hmid
+    rw [hnot, hr1, hmid, not1_one _ hF.1]
+    have hzero : rest.foldl (fun p x => p ||| V x) (V b0) = 0 ↔ V a = V b := by
+      rw [hF.2]
+      constructor
+      · intro h
+        apply eq_of_bits (wd a) _ _ ha (hab ▸ hb)
+        intro j hj
+        have hjl : j < bits.length := by rw [hlen, hxa]; exact hj
+        have hget : bits[j]? = some bits[j] := List.getElem?_eq_getElem hjl
+        have hv := hbitv j _ hget
+        have hallmem : ∀ bb, bb ∈ bits → V bb = 0 := by
+          intro bb hm
+          rw [e] at hm
+          simp only [List.mem_cons] at hm
+          rcases hm with h1 | h1
+          · rw [h1]; exact h.1
+          · exact h.2 _ (List.mem_map.mpr ⟨_, h1, rfl⟩)
+        rw [hallmem _ (List.getElem_mem hjl)] at hv
+        have : (V a ^^^ V b).testBit j = false := by
+          cases ht : (V a ^^^ V b).testBit j
+          · rfl
+          · rw [ht] at hv; simp at hv
+        rw [Nat.testBit_xor] at this
+        cases h1 : (V a).testBit j <;> cases h2 : (V b).testBit j <;> rw [h1, h2] at this <;> first | rfl | (simp at this)
+      · intro h
+        have hall : ∀ bb, bb ∈ bits → V bb = 0 := by
+          intro bb hbb
+          obtain ⟨j, hj⟩ := mem_getElem? bits bb hbb
+          rw [hbitv j bb hj, h, Nat.xor_self]
+          simp
+        refine ⟨hall b0 (by simp [e]), ?_⟩
+        intro v hv
+        rcases List.mem_map.mp hv with ⟨u, hu, e'⟩
+        subst e'
+        exact hall u (by simp [e, hu])
+    by_cases hab' : V a = V b
+    · rw [if_pos (hzero.mpr hab'), if_pos hab']
+    · rw [if_neg (fun h => hab' (hzero.mp h)), if_neg hab']
+
+theorem eqc_val {wd : Nat → Nat} {V : Nat → Nat} {ls : List CLeaf} (hfix : LeavesFix wd V ls)
+    (a v r : Nat) (bits ns ts : List Nat) (hok : (GKind.eqc a v r bits ns ts).okb wd = true)
+    (hmem : ∀ c, c ∈ (GKind.eqc a v r bits ns ts).leaves wd → c ∈ ls) (ha : V a < 2 ^ wd a) :
+    V r = if V a = v then 1 else 0 := by
+  simp only [GKind.okb, Bool.and_eq_true, decide_eq_true_eq] at hok
+  obtain ⟨⟨⟨_, hvw⟩, hr1⟩, hrest⟩ := hok
+  by_cases hbits : bits = []
+  · rw [if_pos hbits] at hrest
+    simp only [decide_eq_true_eq] at hrest
+    have ha2 : V a < 2 := by rw [hrest] at ha; simpa using ha
+    have hv2 : v < 2 := by rw [hrest] at hvw; simpa using hvw
+    by_cases hv0 : v = 0
+    · have := fix_not1 hfix a r (hmem _ (by simp [GKind.leaves, hbits, hv0]))
+      rw [this, hr1, not1_one _ ha2, hv0]
+    · have := fix_buf hfix a r (hmem _ (by simp [GKind.leaves, hbits, hv0]))
+      have hv1 : v = 1 := by omega
+      rw [this, hr1, hv1]
+      rcases lt2 ha2 with e | e <;> rw [e] <;> decide
+  · rw [if_neg hbits] at hrest
+    simp only [Bool.and_eq_true, decide_eq_true_eq, List.all_eq_true, Bool.not_eq_true', List.contains_eq_mem,
+      decide_eq_false_iff_not, Bool.or_eq_true, List.mem_range] at hrest
+    obtain ⟨⟨⟨⟨⟨⟨⟨hlen, hnd⟩, _⟩, _⟩, hb1⟩, hn1⟩, hshape⟩, hts⟩ := hrest
+    have hsub : ∀ c, c ∈ bitsLeaf (bitsFnL (wd a)) a bits ++
+        (mintermNots wd v bits ns ++ gateLeaves wd Kind.and2 (mintermParts v bits ns) r ts) → c ∈ ls := fun c hc =>
+      hmem c (by simp only [GKind.leaves, if_neg hbits]; exact hc)
+    have hbitv : ∀ j, j < bits.length → V (bits.getD j 0) = if (V a).testBit j then 1 else 0 := by
+      intro j hj
+      have hget : bits[j]? = some (bits.getD j 0) := by
+        rw [List.getD_eq_getElem?_getD, List.getElem?_eq_getElem hj]; rfl
+      have := fix_bits wd V (bitsFnL (wd a)) a bits hnd (fun j hj => bitsFnL_val (wd a) (V a) j hj) hlen
+        (fun c hc => hfix c (hsub c (List.mem_append.mpr (Or.inl hc)))) j _ hget
+      rw [this, hb1 _ (List.mem_of_getElem? hget), bit_val]
+      split <;> rfl
+    have hpart : ∀ i, i < bits.length →
+        V (if v.testBit i then bits.getD i 0 else ns.getD i 0) = if (V a).testBit i = v.testBit i then 1 else 0 := by
+      intro i hi
+      cases hvi : v.testBit i
+      · simp only [Bool.false_eq_true, if_false]
+        have hleaf : (Kind.not1 (bits.getD i 0) (ns.getD i 0)).leaf wd ∈ mintermNots wd v bits ns :=
+          List.mem_filterMap.mpr ⟨i, List.mem_range.mpr hi, by simp [hvi]⟩
+        have := fix_not1 hfix _ _ (hsub _ (List.mem_append.mpr (Or.inr (List.mem_append.mpr (Or.inl hleaf)))))
+        have hw1 : wd (ns.getD i 0) = 1 := by
+          rcases hn1 i hi with h | h
+          · rw [hvi] at h; cases h
+          · exact h
+        rw [this, hw1, hbitv i hi]
+        cases (V a).testBit i <;> decide
+      · simp only [if_true, hbitv i hi]
+    have hplen : (mintermParts v bits ns).length = bits.length := by simp [mintermParts]
+    have hpne : mintermParts v bits ns ≠ [] := by
+      intro e
+      have := congrArg List.length e
+      rw [hplen] at this
+      exact hbits (List.eq_nil_of_length_eq_zero this)
+    obtain ⟨p0, prest, e⟩ := List.exists_cons_of_ne_nil hpne
+    have hpmem : ∀ x, x ∈ mintermParts v bits ns → ∃ i, i < bits.length ∧ x = if v.testBit i then bits.getD i 0 else ns.getD i 0 := by
+      intro x hx
+      rcases List.mem_map.mp hx with ⟨i, hi, e'⟩
+      exact ⟨i, List.mem_range.mp hi, e'.symm⟩
+    have hplt : ∀ x, x ∈ mintermParts v bits ns → V x < 2 := by
+      intro x hx
+      obtain ⟨i, hi, e'⟩ := hpmem x hx
+      rw [e', hpart i hi]; split <;> decide
+    have hr := gate_val hfix Kind.and2 (· &&& ·) (fun a b o h => by rw [fix_and2 hfix a b o h]; rfl) and_hmod p0 prest r ts
+      (by rw [← e, hplen]; exact hshape) (fun t ht => by rw [hr1]; exact hts t ht)
+      (fun c hc => hsub c (List.mem_append.mpr (Or.inr (List.mem_append.mpr (Or.inr (e ▸ hc))))))
+    have hF := andfold01 (prest.map V) (V p0) (hplt p0 (by simp [e])) (by
+      intro x hx
+      rcases List.mem_map.mp hx with ⟨u, hu, e'⟩
+      subst e'
+      exact hplt u (by simp [e, hu]))
+    rw [List.foldl_map] at hF
+    rw [hr1, show (2:Nat) ^ 1 = 2 from rfl, Nat.mod_eq_of_lt hF.1] at hr
+    have hone : prest.foldl (fun p x => p &&& V x) (V p0) = 1 ↔ V a = v := by
+      rw [hF.2]
+      have hall : (V p0 = 1 ∧ ∀ x, x ∈ prest.map V → x = 1) ↔ ∀ x, x ∈ mintermParts v bits ns → V x = 1 := by
+        rw [e]
+        constructor
+        · intro h x hx
+          simp only [List.mem_cons] at hx
+          rcases hx with h1 | h1
+          · rw [h1]; exact h.1
+          · exact h.2 _ (List.mem_map.mpr ⟨x, h1, rfl⟩)
+        · intro h
+          refine ⟨h p0 (by simp), ?_⟩
+          intro x hx
+          rcases List.mem_map.mp hx with ⟨u, hu, e'⟩
+          subst e'
+          exact h u (by simp [hu])
+      rw [hall]
+      constructor
+      · intro h
+        apply eq_of_bits (wd a) _ _ ha hvw
+        intro j hj
+        have hjl : j < bits.length := by rw [hlen]; exact hj
+        have := h _ (List.mem_map.mpr ⟨j, List.mem_range.mpr hjl, rfl⟩)
+        rw [hpart j hjl] at this
+        by_cases hc : (V a).testBit j = v.testBit j
+        · exact hc
+        · rw [if_neg hc] at this; cases this
+      · intro h x hx
+        obtain ⟨i, hi, e'⟩ := hpmem x hx
+        rw [e', hpart i hi, h]
+        simp
+    rw [hr]
+    by_cases hav : V a = v
+    · rw [if_pos hav]; exact hone.mpr hav
+    · rw [if_neg hav]
+      have : prest.foldl (fun p x => p &&& V x) (V p0) ≠ 1 := fun h => hav (hone.mp h)
+      have := hF.1
+      omega
+
 /-! ### every child: justification of its assigns -/
 
 theorem okb_prim (wd : Nat → Nat) (p : Kind) (h : FlatSrc.Kind.okb wd p = true) : p.ok wd := by
@@ -366,6 +589,29 @@ theorem gkind_just (wd : Nat → Nat) (nm : Nat → String) (k : GKind) (hok : k
       simp only [List.map_cons, List.map_map, Function.comp_def, List.foldl_map] at ht
       show evalAssign r (wd o) (.un "not" (binChain "or" ((x :: rest).map nm))) = _
       rw [List.map_cons, ht, hr, hv, not1_mod _ _ _ (Or.inl hok.2)]
+  | equal x y z xr mid xo yo m0 m1 m2 m3 bits ts nmid =>
+    obtain ⟨_, e1⟩ := single_get _ _ _ ha
+    obtain ⟨_, e2⟩ := single_get _ _ _ ho
+    subst e1 e2
+    have hx := hK x (by simp [GKind.ins])
+    have hy := hK y (by simp [GKind.ins])
+    have hv := equal_val hfix x y o xr mid xo yo m0 m1 m2 m3 bits ts nmid hok (fun c hc => hc) hx.lt hy.lt
+    simp only [GKind.okb, Bool.and_eq_true, decide_eq_true_eq] at hok
+    have hr1 : wd o = 1 := hok.1.1.1.2
+    rw [hv]
+    show evalAssign r (wd o) (.tern (.bin "eq" (.id (nm x)) (.id (nm y))) (C01.lit 1) (C01.lit 0)) = _
+    exact inline_equal (wd o) (by omega) hx hy
+  | eqc x v z bits ns ts =>
+    obtain ⟨_, e1⟩ := single_get _ _ _ ha
+    obtain ⟨_, e2⟩ := single_get _ _ _ ho
+    subst e1 e2
+    have hx := hK x (by simp [GKind.ins])
+    have hv := eqc_val hfix x v o bits ns ts hok (fun c hc => hc) hx.lt
+    simp only [GKind.okb, Bool.and_eq_true, decide_eq_true_eq] at hok
+    have hr1 : wd o = 1 := hok.1.2
+    rw [hv]
+    show evalAssign r (wd o) (.tern (.bin "eq" (.id (nm x)) (C01.lit v)) (C01.lit 1) (C01.lit 0)) = _
+    exact inline_equalconst (wd o) v hok.1.1.1 (by omega) hx
   | bitsL x bits =>
     simp only [GKind.okb, Bool.and_eq_true, decide_eq_true_eq, Bool.not_eq_true', List.contains_eq_mem, decide_eq_false_iff_not] at hok
     exact just_bits wd nm V (bitsFnL (wd x)) x bits hok.1.1.1.2 hok.1.1.1.1 hok.2
@@ -445,6 +691,18 @@ theorem gkind_reads_sub (wd : Nat → Nat) (nm : Nat → String) (k : GKind) (j 
         rw [reads_binChain _ _ (by simp)] at hn
         rcases List.mem_map.mp hn with ⟨x, hx, e⟩
         exact ⟨x, hx, e.symm⟩
+  | equal x y z xr mid xo yo m0 m1 m2 m3 bits ts nmid =>
+    obtain ⟨_, e1⟩ := single_get _ _ _ ha
+    subst e1
+    simp [reads, FlatM.lit] at hn
+    rcases hn with h | h
+    · exact ⟨x, by simp [GKind.ins], h⟩
+    · exact ⟨y, by simp [GKind.ins], h⟩
+  | eqc x v z bits ns ts =>
+    obtain ⟨_, e1⟩ := single_get _ _ _ ha
+    subst e1
+    simp [reads, FlatM.lit] at hn
+    exact ⟨x, by simp [GKind.ins], hn⟩
   | bitsL x bits =>
     obtain ⟨b, _, _, hf⟩ := bitsAssigns_get nm x bits j a ha
     rcases hf with ⟨_, e⟩ | ⟨_, e⟩ <;> rw [e] at hn <;> simp [reads, FlatM.lit] at hn <;> exact ⟨x, by simp [GKind.ins], hn⟩
@@ -495,6 +753,17 @@ theorem gkind_reads_sup (wd : Nat → Nat) (nm : Nat → String) (k : GKind) (ho
       simp only [reads]
       rw [reads_binChain _ _ (by simpa using hne)]
       exact List.mem_map.mpr ⟨x, hx, rfl⟩
+  | equal u v z xr mid xo yo m0 m1 m2 m3 bits ts nmid =>
+    obtain ⟨_, e1⟩ := single_get _ _ _ ha
+    subst e1
+    simp [GKind.ins] at hx
+    rcases hx with h | h <;> subst h <;> simp [reads]
+  | eqc u v z bits ns ts =>
+    obtain ⟨_, e1⟩ := single_get _ _ _ ha
+    subst e1
+    simp [GKind.ins] at hx
+    subst hx
+    simp [reads]
   | bitsL y bits =>
     obtain ⟨b, _, _, hf⟩ := bitsAssigns_get nm y bits j a ha
     have : x = y := by simpa [GKind.ins] using hx
